@@ -14,7 +14,7 @@
 From Coq Require Import List NArith Arith Lia Bool.
 From M4 Require Import Base.Bits Lin.Mat Lin.Ops Lin.OpsProofs Word.WMat Word.WOps Word.WMatLemmas
   Word.WRefine Word.WRefine2 Word.WRefine7 Word.WRefine8 Word.WRefine9 Word.WRefine10
-  Word.WRefineViews Word.WRefineRefuted.
+  Word.WRefine12 Word.WRefine13 Word.WRefineViews Word.WRefineRefuted.
 Import ListNotations.
 Local Open Scope nat_scope.
 
@@ -137,6 +137,19 @@ Theorem C09_combine_even : forall hC c hA a hB b sb mem,
 Proof. exact w_combine_even_ok. Qed.
 Print Assumptions C09_combine_even.
 
+Theorem C09_combine : forall hC c hA a hB b sb mem,
+  valid hC mem -> valid hA mem -> valid hB mem ->
+  h_ncols hA = h_ncols hC -> h_ncols hB = h_ncols hC ->
+  c < h_nrows hC -> a < h_nrows hA -> b < h_nrows hB -> sb < h_width hC ->
+  row_alias hC c hA a -> row_alias hC c hB b ->
+  exists m', w_combine hC c sb hA a sb hB b sb mem = Ok m' /\ length m' = length mem /\ mem_ok m' /\
+    touched hC c (64 * sb) (h_ncols hC) mem m' /\
+    forall j, N.testbit (rowval hC m' c) (N.of_nat j) =
+      if 64 * sb <=? j then xorb (N.testbit (rowval hA mem a) (N.of_nat j)) (N.testbit (rowval hB mem b) (N.of_nat j))
+      else N.testbit (rowval hC mem c) (N.of_nat j).
+Proof. exact w_combine_ok. Qed.
+Print Assumptions C09_combine.
+
 Theorem C09_combine_even_in_place : forall hA a hB b sb mem,
   valid hA mem -> valid hB mem -> h_ncols hB = h_ncols hA ->
   a < h_nrows hA -> b < h_nrows hB -> sb < h_width hA -> row_alias hA a hB b ->
@@ -171,6 +184,17 @@ Print Assumptions C09_equal.
 Print Assumptions C09_cmp.
 Print Assumptions C09_is_zero.
 Print Assumptions C09_first_zero_row.
+
+(** mzd_find_pivot (four paths, m4ri_lesser_LSB, early breaks): no hypothesis on r0, c0 *)
+Theorem C09_find_pivot : forall hA mem r0 c0, valid hA mem ->
+  w_find_pivot hA r0 c0 mem = Ok (find_pivot (abs hA mem) r0 c0).
+Proof. exact w_find_pivot_ok. Qed.
+Print Assumptions C09_find_pivot.
+
+Theorem C09_find_pivot_view_only : forall hA mem1 mem2 r0 c0, valid hA mem1 -> valid hA mem2 ->
+  abs hA mem1 = abs hA mem2 -> w_find_pivot hA r0 c0 mem1 = w_find_pivot hA r0 c0 mem2.
+Proof. exact find_pivot_view_only. Qed.
+Print Assumptions C09_find_pivot_view_only.
 
 (** hence: same view contents => same answers, whatever surrounds the views *)
 Theorem C09_observers_view_only : forall hA hB mem1 mem2,
